@@ -30,7 +30,11 @@ CLAIM = dict(
           "rig/bitfield.py by exact correspondence of histories with full tree dumps after every mutating call, the scan "
           "bound and max_value default regenerated from the source on every run, and the Lean specification predicates "
           "(proved equivalent to / used as hypotheses of the theorems) evaluated on the implementation's own trees, "
-          "instances, keys, masks and positions.  Only validated, not proved: that the hand-written model equals the "
+          "instances, keys, masks and positions.  Automatic lengths: the model chooses the exact bit length of "
+          "max_value, or - only for max_value >= 2^44 and only where the implementation itself shows it - one bit more "
+          "(CPython's int(log(v, 2)) + 1 rounds up for e.g. 2^k - 1, k >= 48); auto_length_covers proves that either choice "
+          "covers max_value, so every theorem holds for both, and a NARROWER implementation length is a correspondence "
+          "mismatch and a too-narrow / value-too-wide / readback / not-orthogonal violation.  Only validated, not proved: that the hand-written model equals the "
           "code (differential correspondence), and completeness for non-nested scopes (false: known finding)."),
     design="3/C08",
     note=("Completeness: the theorem has the hypothesis SCAN_SLACK = 1 (the constant the translator reads from "
@@ -42,14 +46,19 @@ CLAIM = dict(
           "complete-floating-cross-scope.  'Two different complete assignments' means two instances whose dicts differ "
           "as mappings; for arbitrary dicts (not instances) the exact extra condition is that every key names a field "
           "present under that dict ({zz: 1} vs {} differ on no field) - it is part of the proved instance invariant.  "
-          "add_field is proved for arbitrary instance values (more general than the code).  Auto length modelled as "
-          "floor(log2(max))+1 (float log agrees below 2^48; generated values stay below 2^40).  Explicit start positions "
+          "add_field is proved for arbitrary instance values (more general than the code).  Auto length: exact bit length "
+          "demanded of the implementation below 2^44 (probed: the float formula is exact there; first deviation at "
+          "2^48 - 1); from 2^44 on the implementation's length must be the exact bit length or one more (the harness "
+          "observes the implementation's own length for that max_value on a scratch bit field and passes 'spare' marks to "
+          "the model's assign op; Reachable has a constructor for this model-only marking); the completeness oracle is "
+          "not applied when an automatically sized field has max_value >= 2^44 (its width is then the implementation's "
+          "choice).  Explicit start positions "
           "are non-negative (documented 0-based index).  A RecursionError of _Tree.add_field (instance values selecting "
           "fields of two children of one node) is modelled as an error and ends the history."),
     technique="Lean 4 theorems over a hand-written model + differential correspondence on histories + Lean spec predicates as oracle")
 
 THEOREMS = ["max_value_default", "inv_init", "inv_addField", "inv_call", "inv_assignFields", "reachable_inv",
-            "assign_disjoint", "enabled_disjoint", "scope_unique", "wide_enough", "call_rejects_wide",
+            "assign_disjoint", "enabled_disjoint", "scope_unique", "wide_enough", "auto_length_covers", "call_rejects_wide",
             "reject_explicit_overflow", "reject_explicit", "valuesFit_of_le_max", "readback", "mask_exact",
             "mask_exact_tag", "orthogonal",
             # deepening round
@@ -63,7 +72,10 @@ RULE = ("histories of 6-40 operations generated against the running implementati
         "that open sibling scopes, lengths None/1-5, explicit positions incl. the top bit, tags, assign_fields in the middle "
         "and at the end, then completion of instances so that keys exist) plus an error stream (duplicate names, overlaps, "
         "overflow, zero/negative lengths, negative/too large values, unknown fields/tags); bit-field lengths 1-64 chosen "
-        "tight for the hierarchy in half of the cases; a case is non-trivial when it has >= 2 scopes, a successful "
+        "tight for the hierarchy in half of the cases; plus a wide stream: bit fields of 64-160 bits (and the exact-fit / "
+        "one-bit-short re-runs) with 2-5 automatically sized neighbouring fields (and one in a child scope) whose largest "
+        "values are 2^k - 1, 2^k, 2^k + 1 for k in 0..100 biased to 30..70, several complete instances, and fixed "
+        "boundary cases k in {44,47,48,49,50,52,53,63,64,65,80,100}; a case is non-trivial when it has >= 2 scopes, a successful "
         "assign_fields and >= 1 complete key checked by the oracle; distinct = distinct canonical JSON of the history")
 
 IDENTS = list("abcdefgh")
@@ -98,6 +110,37 @@ def err_name(e):
     return "Other:" + type(e).__name__
 
 
+SPARE_FROM = 2 ** 44      # = Rig.C08.SPARE_FROM of the model
+_PROBE = {}
+
+
+def probe_len(max_value):
+    """the automatic length the *implementation* gives a field whose largest value is max_value (observed on a scratch
+    bit field; a deterministic function of max_value); None if it cannot be observed"""
+    if max_value not in _PROBE:
+        from rig.bitfield import BitField
+        try:
+            b = BitField(max(1, max_value).bit_length() + 8)
+            b.add_field("p")
+            b(p=max_value)
+            b.assign_fields()
+            _PROBE[max_value] = b.get_location_and_length("p")[1]
+        except (ValueError, LookupError, ArithmeticError, OverflowError, TypeError):
+            _PROBE[max_value] = None
+    return _PROBE[max_value]
+
+
+def spare_hints(dump):
+    """max_values >= SPARE_FROM of automatically sized fields for which the implementation's floating-point length is
+    one bit above the exact bit length (allowed: wider is fine); anything else is left to the exact rule of the model"""
+    out = set()
+    for e in dump:
+        m = e["max"]
+        if e["length"] is None and m >= SPARE_FROM and probe_len(m) == m.bit_length() + 1:
+            out.add(m)
+    return sorted(out)
+
+
 class Runner(object):
     """Runs a history on the real BitField; instance i = i-th successfully created instance."""
 
@@ -116,12 +159,18 @@ class Runner(object):
 
     def do(self, op):
         assert not self.dead
+        op = dict(op)
         self.ops.append(op)
         kind = op["op"]
         inst = self.insts[op["inst"]] if "inst" in op else None
         mutating = kind in ("add", "call", "assign")
         if kind == "assign":
-            self.pre_assign.append((len(self.ops) - 1, self.dump()))
+            pre = self.dump()
+            self.pre_assign.append((len(self.ops) - 1, pre))
+            hints = spare_hints(pre)
+            op.pop("spare", None)
+            if hints:
+                op["spare"] = hints          # model-only: where the float length has a spare bit (see RULE)
         try:
             if kind == "add":
                 inst.add_field(op["ident"], length=op["length"], start_at=op["start"],
@@ -291,6 +340,74 @@ def gen_history(rng, size, tight):
     return run
 
 
+def big_value(rng, k=None):
+    """2^k - 1, 2^k, 2^k + 1 for k in 0..100, biased to 30..70"""
+    if k is None:
+        k = rng.randrange(30, 71) if rng.random() < 0.65 else rng.randrange(0, 101)
+    return max(0, (1 << k) + rng.choice([-1, 0, 0, 1]))
+
+
+def gen_wide_history(rng):
+    """bit fields of 64-160 bits with automatically sized neighbours whose largest values are 2^k, 2^k +- 1"""
+    USED_VALUES.clear()
+    L = rng.choice([64, 64, 96, 128, 128, 160])
+    run = Runner(L)
+    names = list("abcd")[:rng.randrange(2, 5)]
+    scale = {}
+    selector = rng.random() < 0.5
+    kx = rng.randrange(30, 71) if rng.random() < 0.6 else rng.randrange(0, 60)
+    kx = min(kx, L // 3)
+    budget = L - 2 - ((kx + 4) if selector else 0)
+    for nm in names:
+        k = rng.randrange(30, 71) if rng.random() < 0.65 else rng.randrange(0, 101)
+        if k + 2 > budget and rng.random() < 0.85:
+            k = max(0, min(k, budget - 2))
+        budget -= min(budget, k + 2)
+        scale[nm] = k
+        fixed = rng.random() < 0.15
+        run.do({"op": "add", "inst": 0, "ident": nm, "length": (k + 1) if fixed else None, "start": None,
+                "tags": rng.sample(TAGS, rng.choice([0, 0, 1]))})
+    if selector:
+        run.do({"op": "add", "inst": 0, "ident": "s", "length": None if rng.random() < 0.5 else 1, "start": None,
+                "tags": []})
+
+    def val(nm):
+        r = rng.random()
+        if r < 0.45:
+            return big_value(rng, scale[nm])
+        if r < 0.6:
+            return big_value(rng, rng.randrange(0, scale[nm] + 1))
+        return rng.randrange(4)
+    roots = []
+    for _ in range(rng.randrange(2, 6)):
+        kw = [[nm, val(nm)] for nm in names]
+        if selector:
+            kw.append(["s", rng.randrange(2)])
+        rng.shuffle(kw)
+        r = run.do({"op": "call", "inst": 0, "kw": kw})
+        if "ok" in r:
+            roots.append((len(run.insts) - 1, dict(kw)))
+    if selector and roots:
+        for i, kw in roots[:2]:
+            if run.dead:
+                break
+            r = run.do({"op": "add", "inst": i, "ident": "x", "length": None, "start": None, "tags": []})
+            if "ok" in r:
+                run.do({"op": "call", "inst": i, "kw": [["x", big_value(rng, kx)]]})
+    if run.dead:
+        return run
+    if rng.random() < 0.25:
+        run.do({"op": "assign"})
+        if not run.dead and roots and rng.random() < 0.7:
+            # values after the layout: accepted iff they fit the (possibly one bit wider) implementation length
+            kw = [[nm, big_value(rng, scale[nm])] for nm in names]
+            if selector:
+                kw.append(["s", rng.randrange(2)])
+            run.do({"op": "call", "inst": 0, "kw": kw})
+    finish(rng, run)
+    return run
+
+
 def finish(rng, run):
     """layout, then complete some instances so that keys exist, then read everything back"""
     run.do({"op": "assign"})
@@ -405,7 +522,8 @@ def eval_runs(ctx, runs):
                 ask("invariant", ri, (oi, op["op"], "ok" in r), op="invariant", length=run.length, entries=st)
                 last = st
         for oi, pre in run.pre_assign:
-            if len(pre) <= 11 and all(e["start"] is None for e in pre):
+            if (len(pre) <= 11 and all(e["start"] is None for e in pre)
+                    and all(e["length"] is not None or e["max"] < SPARE_FROM for e in pre)):
                 ask("floating", ri, oi, op="floating_fits", length=run.length, entries=pre)
         comp = complete_instances(run)
         final = run.dump() if not run.dead else []
@@ -495,6 +613,12 @@ def eval_runs(ctx, runs):
         assigned_ok = any(o["op"] == "assign" and "ok" in r for o, r in zip(run.ops, run.results))
         for o, r in zip(run.ops, run.results):
             ctx.tag("%s_%s" % (o["op"], "ok" if "ok" in r else r["err"]))
+        if any(o.get("spare") for o in run.ops):
+            ctx.tag("assign_with_spare_bit")
+        if run.length > 64:
+            ctx.tag("length_over_64")
+        if any(e["max"] >= SPARE_FROM for e in st):
+            ctx.tag("max_value_over_2^44")
         depth = max([len(e["path"]) for e in st] + [0])
         ctx.tag("depth_%d" % min(depth, 4), "scopes_%s" % (scopes if scopes < 4 else "4+"))
         if any(e["length"] is not None and e["start"] is not None and e["start"] + e["length"] == run.length for e in st):
@@ -527,13 +651,21 @@ def fixed_cases():
              call(1, b=3), {"op": "value", "inst": 3, "tag": None, "field": None},
              {"op": "mask", "inst": 3, "tag": "t1", "field": None}]),
     ]
+    for k in (44, 47, 48, 49, 50, 52, 53, 63, 64, 65, 80, 100):
+        for d in (-1, 0, 1):
+            v = (1 << k) + d
+            out.append((k + 12, [add(0, "t"), add(0, "u"), call(0, t=v, u=3), call(0, t=0, u=2), call(0, t=v, u=2), A,
+                                 {"op": "value", "inst": 1, "tag": None, "field": None},
+                                 {"op": "loc", "inst": 1, "field": "t"}]))
     return out
 
 
 def run(ctx):
     ctx.extra["rule"] = RULE
     ctx.assumptions += [
-        "explicit start positions are non-negative integers (documented 0-based index); values below 2^40 (float log2 exact)",
+        "explicit start positions are non-negative integers (documented 0-based index)",
+        "automatic lengths: exact bit length of max_value required below 2^44; from 2^44 on the exact bit length or one bit "
+        "more is accepted (double-precision log2 of the implementation; never fewer)",
         "field identifiers are distinct from BitField attribute names; tag and field are not both given to a getter",
         "the history ends at a RecursionError of _Tree.add_field (the tree is left half-built by the code)",
     ]
@@ -547,6 +679,23 @@ def run(ctx):
         n *= 4
     rng = ctx.rng
     runs = [replay_ops(L, ops) for L, ops in fixed_cases()]
+    # wide bit fields with automatically sized fields around powers of two (float log2 of the implementation)
+    n_wide = ctx.scale(400, 8000) * (4 if ctx.extended else 1)
+    made_w = 0
+    while made_w < n_wide:
+        run_ = gen_wide_history(rng)
+        runs.append(run_)
+        made_w += 1
+        if not run_.dead and rng.random() < 0.5:
+            top = tighten(run_)
+            L2 = top if rng.random() < 0.7 else top - 1
+            if 1 <= L2 != run_.length:
+                runs.append(replay_ops(L2, retarget(run_.ops, run_.length, L2)))
+                made_w += 1
+        if len(runs) >= 1500:
+            eval_runs(ctx, runs)
+            runs = []
+    ctx.tag("wide_histories_%d" % made_w)
     batch = 2500
     made = 0
     while made < n:
